@@ -15,7 +15,7 @@ import (
 
 func init() {
 	Registry["C06"] = Set{
-		Explanation: "Decides structural clauses of registry integrity: G1 every insert into the node's identity tables (names, aliases, events) is a LoadOrStore whose 'already present' edge returns an error without side effects on the table; a plain Store is accepted only for keys minted in the same function from the node's counters (pid from nextID, meta alias from MakeRef); G2 the id counters are modified only by atomic add, a PID carries the untruncated counter, and the tuple of Ref.ID words written by MakeRef is an injective function of the 64-bit counter (bit provenance: every counter bit is copied to some ID bit); G3 unregisterProcess reaches on every path the delete of the pid, of the registered name, of every alias, of every event, the exit of every meta process, the drain of relations targeting each of those identities and the drain of relations held BY the process; G4 remove-by-swap on slices overwrites the found slot with the element that is then dropped; G5 the per-process registered flag is claimed by CAS before the name insert and rolled back when the insert loses, and cleared when the name is removed. Added while probing: G3m at every meta-process teardown site the alias is deleted from the alias table before the Terminate callback; G5 requires a compare-and-swap for a process that is already published.",
+		Explanation: "Decides structural clauses of registry integrity: G1 every insert into the node's identity tables (names, aliases, events) is a LoadOrStore whose 'already present' edge returns an error without side effects on the table; a plain Store is accepted only for keys minted in the same function from the node's counters (pid from nextID, meta alias from MakeRef); G2 the id counters are modified only by atomic add, a PID carries the untruncated counter, and the tuple of Ref.ID words written by MakeRef is an injective function of the 64-bit counter (bit provenance: every counter bit is copied to some ID bit); G3 unregisterProcess reaches on every path the delete of the pid, of the registered name, of every alias, of every event, the exit of every meta process, the drain of relations targeting each of those identities and the drain of relations held BY the process; G4 remove-by-swap on slices overwrites the found slot with the element that is then dropped; G5 the per-process registered flag is claimed by CAS before the name insert and rolled back when the insert loses, and cleared when the name is removed. Added while probing: G3m at every meta-process teardown site the alias is deleted from the alias table before the Terminate callback; G5 requires a compare-and-swap for a process that is already published. G3o in the process release function every delete of the name, aliases and events precedes the first termination notice; G3 now requires delete and drain each for every element on every path (same loop body or separate complete walks).",
 		NotDecided: []string{
 			"uniqueness across the 2^64 wrap of the counters",
 			"process listings racing with termination",
@@ -40,6 +40,87 @@ func runC06(p *load.Program, r *core.Report) {
 	c06SwapDelete(a, r)
 	c06NameFlag(a, r)
 	c06MetaRelease(a, r)
+	c06ReleaseOrder(a, r)
+}
+
+// c06ReleaseOrder: G3o — released before anybody is told. In the process release function every
+// delete of the process's name, aliases and events from the identity tables precedes the first
+// RouteTerminate* notification: a process that learns of the termination (a supervisor getting the
+// exit signal) can claim the name again at once. Deletes and notifications inside Range callbacks
+// count at the position of the Range call; the hand-over to the meta processes (alias delete + exit
+// message) is not an identity anybody re-claims and is exempt.
+func c06ReleaseOrder(a *Anchors, r *core.Report) {
+	rule := "C06.G3o released-before-notified"
+	r.Floor(rule, 1)
+	f := a.P.Func("node", a.NodeT.Obj().Name(), "unregisterProcess")
+	key := "C06.G3o|unregisterProcess"
+	inst := "the name, aliases and events of a terminating process are deleted from the tables before the first termination notice goes out"
+	if f == nil {
+		r.Unk(rule, key, "", "", inst, "unregisterProcess not found")
+		return
+	}
+	effect := func(in ssa.Instruction) (del, notify bool) {
+		var scan func(g *ssa.Function, depth int)
+		one := func(i2 ssa.Instruction) {
+			cc := callCommon(i2)
+			if cc == nil {
+				return
+			}
+			if m, ok := syncMapCall(cc); ok && (m == "Delete" || m == "LoadAndDelete") {
+				switch tableOf(a, cc) {
+				case "names", "aliases", "events":
+					del = true
+				}
+			}
+			if strings.HasPrefix(calleeName(cc), "RouteTerminate") {
+				notify = true
+			}
+		}
+		scan = func(g *ssa.Function, depth int) {
+			if depth > 2 {
+				return
+			}
+			meta := false
+			eachInstr(g, func(i2 ssa.Instruction) {
+				if c2 := callCommon(i2); c2 != nil && staticCallee(c2) == a.MetaWake {
+					meta = true
+				}
+			})
+			if meta {
+				return
+			}
+			eachInstr(g, one)
+		}
+		one(in)
+		if cc := callCommon(in); cc != nil {
+			for _, arg := range cc.Args {
+				if mc, ok := arg.(*ssa.MakeClosure); ok {
+					scan(mc.Fn.(*ssa.Function), 1)
+				}
+			}
+		}
+		return
+	}
+	var notifies []Point
+	nDel := 0
+	eachInstr(f, func(in ssa.Instruction) {
+		d, n := effect(in)
+		if d {
+			nDel++
+		}
+		if n {
+			notifies = append(notifies, after(in))
+		}
+	})
+	hit := reaches(notifies, nil, func(in ssa.Instruction) bool { d, _ := effect(in); return d })
+	switch {
+	case nDel == 0 || len(notifies) == 0:
+		r.Unk(rule, key, fname(f), a.P.Pos(f.Pos()), inst, fmt.Sprintf("identity deletes found: %d, notifications found: %d", nDel, len(notifies)))
+	case hit != nil:
+		r.Bad(rule, key, fname(f), a.P.Pos(hit.Pos()), inst, "the delete at "+a.P.Pos(hit.Pos())+" is reachable after a termination notice: a supervisor that reacts to the exit signal restarts the child while its name (or event) is still taken, gets 'resource is taken' and terminates")
+	default:
+		r.OK(rule, key, fname(f), a.P.Pos(f.Pos()), inst, fmt.Sprintf("%d delete site(s), none reachable after a notification", nDel))
+	}
 }
 
 // c06MetaRelease: G3 for meta processes — wherever a meta process is torn down (its Terminate
@@ -611,6 +692,19 @@ func releaseRules(a *Anchors, r *core.Report, rule string, floor int) {
 			return ok && (m == "Delete" || m == "LoadAndDelete") && tableOf(a, cc) == tbl
 		}
 	}
+	// the alias table holds the process's own aliases and the ids of its meta processes (m.id)
+	delAliases := func(meta bool) func(ssa.Instruction) bool {
+		return func(in ssa.Instruction) bool {
+			if !del("aliases")(in) {
+				return false
+			}
+			cc := callCommon(in)
+			key := stripIface(cc.Args[len(cc.Args)-1])
+			_, path, ok := fieldPath(key)
+			isMetaID := ok && len(path) > 0 && path[len(path)-1] == "id"
+			return isMetaID == meta
+		}
+	}
 	named := func(names ...string) func(ssa.Instruction) bool {
 		return func(in ssa.Instruction) bool { return callsNamed(in, names...) }
 	}
@@ -651,17 +745,27 @@ func releaseRules(a *Anchors, r *core.Report, rule string, floor int) {
 		if regLoad == nil {
 			r.Bad(rule, key, fn, a.P.Pos(f.Pos()), inst, "the registered flag is not consulted")
 		} else {
-			t, _, _ := boolEdges(regLoad)
-			var st []Point
-			for _, e := range t {
-				st = append(st, Point{e.To(), 0})
+			// path-sensitive: the flag may be read once and tested twice (delete first, drain later)
+			leaf := func(v ssa.Value) string {
+				c, ok := v.(*ssa.Call)
+				if !ok {
+					return ""
+				}
+				if sf := staticCallee(c.Common()); sf != nil && sf.Name() == "Load" && sf.Pkg != nil && sf.Pkg.Pkg.Path() == "sync/atomic" && len(c.Common().Args) > 0 {
+					if _, path, _ := fieldPath(c.Common().Args[0]); len(path) > 0 && path[len(path)-1] == "registered" {
+						return "registered"
+					}
+				}
+				return ""
 			}
-			b1 := reaches(st, del("names"), isReturn)
-			b2 := reaches(st, named("RouteTerminateProcessID"), isReturn)
-			if len(st) == 0 || b1 != nil || b2 != nil {
-				r.Bad(rule, key, fn, a.P.Pos(f.Pos()), inst, "on the registered edge a path skips names.Delete or RouteTerminateProcessID: the name cannot be claimed again / its links are never notified")
+			entry := []Point{{f.Blocks[0], 0}}
+			known := map[string]bool{"registered": true}
+			b1 := reachesUnder(entry, leaf, known, del("names"), isReturn)
+			b2 := reachesUnder(entry, leaf, known, named("RouteTerminateProcessID"), isReturn)
+			if b1 != nil || b2 != nil {
+				r.Bad(rule, key, fn, a.P.Pos(f.Pos()), inst, "with the registered flag set a path skips names.Delete or RouteTerminateProcessID: the name cannot be claimed again / its links are never notified")
 			} else {
-				r.OK(rule, key, fn, a.P.Pos(f.Pos()), inst, "both on every path of the registered edge")
+				r.OK(rule, key, fn, a.P.Pos(f.Pos()), inst, "both on every path on which the registered flag is set")
 			}
 		}
 	}
@@ -672,44 +776,21 @@ func releaseRules(a *Anchors, r *core.Report, rule string, floor int) {
 		second   func(ssa.Instruction) bool
 		whyFirst string
 	}{
-		{"every alias: delete from the alias table and drain its relations", del("aliases"), named("RouteTerminateAlias"), "alias"},
+		{"every alias: delete from the alias table and drain its relations", delAliases(false), named("RouteTerminateAlias"), "alias"},
 		{"every event: delete from the event table and drain its relations", del("events"), named("RouteTerminateEvent"), "event"},
-		{"every meta process: remove its alias and deliver the exit (push + wake)", del("aliases"), func(in ssa.Instruction) bool {
+		{"every meta process: remove its alias and deliver the exit (push + wake)", delAliases(true), func(in ssa.Instruction) bool {
 			cc := callCommon(in)
 			return cc != nil && staticCallee(cc) == a.MetaWake
 		}, "meta"},
 	}
 	for _, pr := range pairs {
 		key := rid + "|" + fn + "|" + pr.whyFirst
-		found := false
-		for _, g := range family(f) {
-			// a block (or closure) that contains the second call must contain the first as well, on all paths of that body
-			var secs []ssa.Instruction
-			eachInstr(g, func(in ssa.Instruction) {
-				if pr.second(in) {
-					secs = append(secs, in)
-				}
-			})
-			for _, s := range secs {
-				hasFirst := false
-				for _, in := range s.Block().Instrs {
-					if pr.first(in) {
-						hasFirst = true
-					}
-				}
-				if g != f && !hasFirst {
-					// closure: first on every path of the closure
-					hasFirst = pathsMiss(g, pr.first) == nil
-				}
-				if hasFirst {
-					found = true
-				}
-			}
-		}
-		if found {
-			r.OK(rule, key, fn, a.P.Pos(f.Pos()), "process release: "+pr.what, "both calls in the same loop body / callback")
+		ok1, why1 := everyElement(f, pr.first)
+		ok2, why2 := everyElement(f, pr.second)
+		if ok1 && ok2 {
+			r.OK(rule, key, fn, a.P.Pos(f.Pos()), "process release: "+pr.what, "both calls are made for every element (complete walk on every path)")
 		} else {
-			r.Bad(rule, key, fn, a.P.Pos(f.Pos()), "process release: "+pr.what, "the pair is incomplete: an identity of the terminated process stays claimed or its relations are never drained")
+			r.Bad(rule, key, fn, a.P.Pos(f.Pos()), "process release: "+pr.what, "the pair is incomplete ("+strings.TrimSpace(why1+" "+why2)+"): an identity of the terminated process stays claimed or its relations are never drained")
 		}
 	}
 	// same for the explicit unregister functions
@@ -755,6 +836,67 @@ func releaseRules(a *Anchors, r *core.Report, rule string, floor int) {
 			r.Bad(rule, key, fname(g), a.P.Pos(g.Pos()), inst, "a successful return is reachable without the delete or without the drain")
 		}
 	}
+}
+
+// everyElement: some call satisfying pred is made once for every element of a collection, on every
+// path of f: either inside a Range callback (the call on every path of the callback, the callback
+// never stops the walk, the Range call itself on every path of f), or inside a loop of f that is
+// left only by exhaustion and whose header every path of f passes.
+func everyElement(f *ssa.Function, pred func(ssa.Instruction) bool) (bool, string) {
+	why := "no such call"
+	for _, g := range family(f) {
+		var sites []ssa.Instruction
+		eachInstr(g, func(in ssa.Instruction) {
+			if pred(in) {
+				sites = append(sites, in)
+			}
+		})
+		for _, s := range sites {
+			if g != f {
+				// callback of a Range-like call in f
+				if pathsMiss(g, pred) != nil {
+					why = "a path through the callback skips the call"
+					continue
+				}
+				if !closureAlwaysContinues(g) {
+					why = "the callback can stop the walk"
+					continue
+				}
+				isWalk := func(in ssa.Instruction) bool {
+					cc := callCommon(in)
+					if cc == nil {
+						return false
+					}
+					for _, a := range cc.Args {
+						if mc, ok := a.(*ssa.MakeClosure); ok && mc.Fn == ssa.Value(g) {
+							return true
+						}
+					}
+					return false
+				}
+				if g.Parent() == f && pathsMiss(f, isWalk) != nil {
+					why = "a path skips the walk"
+					continue
+				}
+				return true, ""
+			}
+			if ok, w := loopExitsOnlyAtHeader(s); !ok {
+				why = "the loop " + w
+				continue
+			}
+			hdr := loopHeaderOf(s)
+			if hdr == nil {
+				why = "not in a loop"
+				continue
+			}
+			if pathsMiss(f, func(in ssa.Instruction) bool { return in.Block() == hdr }) != nil {
+				why = "a path skips the loop"
+				continue
+			}
+			return true, ""
+		}
+	}
+	return false, why
 }
 
 // c06SwapDelete: G4 — S[a] = S[b]; S = S[1:]  requires b == 0 (the dropped element is saved into the vacated slot)
